@@ -2,7 +2,7 @@ PROP = dict(
     lean_modules=["DefraModel.Props.C06"],
     props_modules=["DefraModel.Props.C06"],
     engines=[dict(name="txn", drv="mvcc", timeout=3600)],
-    rule=("3 directed schedules (the lost-update shape at KV and API level; discard and snapshot under a concurrent non-transactional write) then PRNG-generated schedules: "
+    rule=("5 directed schedules (the lost-update shape at KV and API level; discard and snapshot under a concurrent non-transactional write; a secondary index created inside a transaction after its own writes / while others commit, then index-served queries inside and outside) then PRNG-generated schedules: "
           "KV level — up to 3 concurrent transactions of the real Badger store over 3 keys (begin/get/blind set/blind delete/commit/discard + non-transactional gets); "
           "API level — up to 3 explicit DefraDB transactions over 3 documents (create-or-update, Get, GraphQL query, GetAllDocIDs, commit, discard) interleaved with non-transactional "
           "writes and reads, all single-threaded so the schedule is the input; every operation's result is compared with the multi-version model; a case is one schedule; distinct = schedules; commits made inside transactions that are open, discarded or refused must not be addressable by cid from outside (a commit that the document's committed history lists is public: content addressing)"),
